@@ -293,7 +293,7 @@ def core_only_builds(prop, tier, seed):
                         ("features = alloc, sysroot = core + alloc", ["--no-default-features", "--features", "alloc", "-Zbuild-std=core,alloc"])):
         cmd = ["cargo", "+nightly", "build", "--lib", "--offline", "--target", "x86_64-unknown-linux-gnu",
                "--target-dir", os.path.join(cc.TARGET, "core-only")] + args
-        p = subprocess.run(cmd, cwd="/repo", env=cc.ENV, stdout=subprocess.PIPE, stderr=subprocess.STDOUT, text=True)
+        p = subprocess.run(cmd, cwd=cc.REPO, env=cc.ENV, stdout=subprocess.PIPE, stderr=subprocess.STDOUT, text=True)
         if p.returncode == 0:
             res[label] = "builds"
             continue
